@@ -4,6 +4,11 @@
 //	sf m=<hex method>;p=<hex URL.Path>;ae=<0-3>;ec=<0|1>;root=<hex root rel. to sandbox>;df=<hex default file>;t=<tree>[;raw=<hex request-target>]
 //	     tree = f:<relpath hex>:<content hex> | d:<relpath hex>:- joined by ","
 //
+//	sfh c=<conf>~<conf>…;pr=<product hex>;m=…;p=…;ae=…;ec=…;t=<tree>      reload history
+//	     conf = <version hex>@<product hex>=<hit>.<root rel hex>.<default file hex>/…&…  ("_" = no product)
+//	     all confs are loaded in order into ONE module by the REAL StaticRuleTable.Update (hook VerifServeHistory), then the
+//	     REAL staticFileHandler runs for product pr; the answer is judged against the last conf only.  Result goon | <resp>.
+//
 // exec materialises the tree in a private temp sandbox (cached per tree text; a sentinel and other files live
 // OUTSIDE the document root), builds the request (directly, or by the REAL bfe_http.ReadRequest when raw= is
 // given; the decoded path must then equal p) and runs the REAL mod_static createRespFromStaticFile (hook VerifServe).
@@ -24,6 +29,7 @@ import (
 	"github.com/bfenetworks/bfe/bfe_basic"
 	"github.com/bfenetworks/bfe/bfe_bufio"
 	"github.com/bfenetworks/bfe/bfe_http"
+	"github.com/bfenetworks/bfe/bfe_module"
 	"github.com/bfenetworks/bfe/bfe_modules/mod_static"
 )
 
@@ -254,6 +260,78 @@ func escapeSome(r *vh.Rand, p string) string {
 	return sb.String()
 }
 
+var histProducts = []string{"pa", "pb"}
+var histRoots = []string{"root", "root", "root/sub", "rootx", "root2", "other", "root/dir", "root/"}
+
+func genHistory(r *vh.Rand) string {
+	n := r.Range(2, 4)
+	version := "v1"
+	var confs []string
+	var prev []string // product set of the previous conf
+	for i := 0; i < n; i++ {
+		if r.Chance(2, 5) {
+			version = fmt.Sprintf("v%d", r.Range(1, 3))
+		}
+		var ps, names []string
+		for _, p := range histProducts {
+			keep := r.Chance(3, 4)
+			if i > 0 && r.Chance(1, 2) { // often keep the product SET of the previous conf (only roots change)
+				keep = false
+				for _, q := range prev {
+					if q == p {
+						keep = true
+					}
+				}
+			}
+			if !keep {
+				continue
+			}
+			var rs []string
+			for k := r.Range(1, 2); k > 0; k-- {
+				hit := "1"
+				if r.Chance(1, 4) {
+					hit = "0"
+				}
+				df := ""
+				if r.Chance(1, 3) {
+					df = []string{"default.html", "index.html"}[r.Intn(2)]
+				}
+				rs = append(rs, hit+"."+hx(histRoots[r.Intn(len(histRoots))])+"."+hx(df))
+			}
+			ps = append(ps, hx(p)+"="+strings.Join(rs, "/"))
+			names = append(names, p)
+		}
+		prev = names
+		body := "_"
+		if len(ps) > 0 {
+			body = strings.Join(ps, "&")
+		}
+		confs = append(confs, hx(version)+"@"+body)
+	}
+	// request: an existing file relative to one of the roots (so that old and new root give different answers)
+	e := curFiles[r.Intn(len(curFiles))]
+	p := e.path
+	for _, root := range []string{"root/sub/", "root/dir/", "root/", "rootx/", "root2/", "other/"} {
+		if strings.HasPrefix(p, root) {
+			p = p[len(root):]
+			break
+		}
+	}
+	if r.Chance(1, 6) {
+		p = "../" + p
+	}
+	method := "GET"
+	if r.Chance(1, 8) {
+		method = "HEAD"
+	}
+	ae, ec := 0, 0
+	if r.Chance(1, 4) {
+		ae, ec = 3, 1
+	}
+	return fmt.Sprintf("sfh c=%s;pr=%s;m=%s;p=%s;ae=%d;ec=%d;t=%s", strings.Join(confs, "~"), hx(histProducts[r.Intn(len(histProducts))]),
+		hx(method), hx("/"+p), ae, ec, curTree)
+}
+
 var cleanAlpha = []byte{'/', '/', '.', '.', 'a', 'b', '\\', 0, 0xff}
 
 func gen(r *vh.Rand) string {
@@ -269,6 +347,9 @@ func gen(r *vh.Rand) string {
 		genTree(r)
 	}
 	curLeft--
+	if r.Chance(1, 5) {
+		return genHistory(r)
+	}
 	method := "GET"
 	switch r.Intn(12) {
 	case 0, 1:
@@ -306,7 +387,139 @@ func kv(s, k string) (string, bool) {
 	return "", false
 }
 
+const (
+	hitHost  = "static.example"
+	hitCond  = `req_host_in("static.example")`
+	missCond = `req_host_in("miss.example")`
+)
+
+func render(resp *bfe_http.Response) string {
+	ce, cl, body := "-", "-", "-"
+	if v, ok := resp.Header["Content-Encoding"]; ok && len(v) > 0 {
+		ce = v[0]
+	}
+	if v, ok := resp.Header["Content-Length"]; ok && len(v) > 0 {
+		cl = v[0]
+	}
+	if resp.Body != nil {
+		b, err := ioutil.ReadAll(resp.Body)
+		resp.Body.Close()
+		if err != nil {
+			return "err:body"
+		}
+		body = vh.Hex(b)
+	}
+	return fmt.Sprintf("%d;%s;%s;%s", resp.StatusCode, ce, cl, body)
+}
+
+func execHistory(op string) string {
+	f := strings.Split(op[4:], ";")
+	if len(f) != 7 {
+		return "bad-op"
+	}
+	cs, ok0 := kv(f[0], "c")
+	get := func(i int, k string) ([]byte, bool) {
+		v, ok := kv(f[i], k)
+		if !ok {
+			return nil, false
+		}
+		return vh.UnHex(v)
+	}
+	product, ok1 := get(1, "pr")
+	method, ok2 := get(2, "m")
+	p, ok3 := get(3, "p")
+	aes, ok4 := kv(f[4], "ae")
+	ecs, ok5 := kv(f[5], "ec")
+	tree, ok6 := kv(f[6], "t")
+	if !(ok0 && ok1 && ok2 && ok3 && ok4 && ok5 && ok6) {
+		return "bad-op"
+	}
+	ae, err := strconv.Atoi(aes)
+	if err != nil {
+		return "bad-op"
+	}
+	sb, err := materialise(tree)
+	if err != nil {
+		return "err:sandbox"
+	}
+	var confs []mod_static.VerifStaticConf
+	for _, c := range strings.Split(cs, "~") {
+		vp := strings.Split(c, "@")
+		if len(vp) != 2 {
+			return "bad-op"
+		}
+		ver, ok := vh.UnHex(vp[0])
+		if !ok {
+			return "bad-op"
+		}
+		vc := mod_static.VerifStaticConf{Version: string(ver), Products: map[string][]mod_static.VerifStaticRule{}}
+		if vp[1] != "_" {
+			for _, x := range strings.Split(vp[1], "&") {
+				pr := strings.SplitN(x, "=", 2)
+				if len(pr) != 2 {
+					return "bad-op"
+				}
+				pn, ok := vh.UnHex(pr[0])
+				if !ok {
+					return "bad-op"
+				}
+				var rules []mod_static.VerifStaticRule
+				for _, rtxt := range strings.Split(pr[1], "/") {
+					q := strings.Split(rtxt, ".")
+					if len(q) != 3 {
+						return "bad-op"
+					}
+					root, ok1 := vh.UnHex(q[1])
+					df, ok2 := vh.UnHex(q[2])
+					if !ok1 || !ok2 {
+						return "bad-op"
+					}
+					cond := missCond
+					if q[0] == "1" {
+						cond = hitCond
+					}
+					rules = append(rules, mod_static.VerifStaticRule{Cond: cond, Root: sb + "/" + string(root), DefaultFile: string(df)})
+				}
+				vc.Products[string(pn)] = rules
+			}
+		}
+		confs = append(confs, vc)
+	}
+	hreq, err := bfe_http.NewRequest("GET", "http://"+hitHost+"/", nil)
+	if err != nil {
+		return "err:newrequest"
+	}
+	hreq.Method = string(method)
+	hreq.URL.Path = string(p)
+	switch ae {
+	case 1:
+		hreq.Header.Set("Accept-Encoding", "gzip")
+	case 2:
+		hreq.Header.Set("Accept-Encoding", "br")
+	case 3:
+		hreq.Header.Set("Accept-Encoding", "deflate, gzip, br")
+	}
+	req := new(bfe_basic.Request)
+	req.Session = new(bfe_basic.Session)
+	req.Route.Product = string(product)
+	req.HttpRequest = hreq
+	ret, resp, err := mod_static.VerifServeHistory(ecs == "1", confs, req)
+	if err != nil {
+		return "err:cond"
+	}
+	if resp == nil {
+		if ret == bfe_module.BfeHandlerGoOn {
+			return "goon"
+		}
+		return "err:ret"
+	}
+	return render(resp)
+}
+
 func exec(op string) string {
+	if strings.HasPrefix(op, "sfh ") {
+		return execHistory(op)
+	}
 	if strings.HasPrefix(op, "clean ") {
 		b, ok := vh.UnHex(op[6:])
 		if !ok {
